@@ -1297,7 +1297,13 @@ class H2Stream:
 
         # The above steps are all generators, so we need to concretize the
         # headers now.
-        return list(headers)
+        try:
+            return list(headers)
+        except UnicodeDecodeError as e:
+            raise ProtocolError(
+                "Unable to decode received headers as %s: %s" %
+                (header_encoding, e)
+            )
 
     def _initialize_content_length(self, headers):
         """
